@@ -69,7 +69,14 @@ def check_construction(case, rec):
             except Exception:
                 rec.skip('identically-zero operator (constructor raised)')
                 return
-    mpo = (ptn.spin_molecular_hamiltonian_mpo if spin else ptn.molecular_hamiltonian_mpo)(t, v, optimize=opt)
+    # the flag in its legal forms: Python bool, NumPy bool, integer
+    flag = [opt, np.bool_(opt), int(opt)][case['seed'] % 3]
+    mpo = (ptn.spin_molecular_hamiltonian_mpo if spin else ptn.molecular_hamiltonian_mpo)(t, v, optimize=flag)
+    if opt:
+        # the optimized construction does not carry the node bookkeeping of the explicit one
+        require(not hasattr(mpo, 'nid_map'), 'optimize flag given as a truthy non-bool selected the explicit construction')
+    else:
+        require(hasattr(mpo, 'nid_map'), 'optimize flag given as a falsy non-bool selected the optimized construction')
     require(np.array_equal(t, t0) and np.array_equal(v, v0), 'constructor modified the coefficient tensors')
     require(mpo.nsites == L, 'wrong number of sites', got=mpo.nsites, want=L)
     d = 4 if spin else 2
